@@ -630,15 +630,28 @@ class Gen:
         for _ in range(1 + ch.choice(2, "ctx-n")):
             k = ch.choice(5, "ctx-key")
             v = 10 + ch.choice(5, "ctx-val")
+            if ch.coin(0.3, "ctx-falsy"):
+                # an override may well be falsy: it still wins over an inherited truthy value
+                v = [0, False, None, ""][ch.choice(4, "ctx-falsy-val")]
+            if ch.coin(0.08, "ctx-mapping-replaced"):
+                # a scalar / None replaces a whole inherited mapping
+                out["n" if ch.choice(2, "ctx-repl-key") else "m"] = v
+                continue
             if k == 0:
                 out["x"] = v
             elif k == 1:
                 out["y"] = v
             elif k == 2:
+                if not isinstance(out.get("n", {}), dict):
+                    out["n"] = {}
                 out.setdefault("n", {})["p"] = v
             elif k == 3:
+                if not isinstance(out.get("n", {}), dict):
+                    out["n"] = {}
                 out.setdefault("n", {})["q"] = v
             else:
+                if not isinstance(out.get("m", {}), dict):
+                    out["m"] = {}
                 out.setdefault("m", {}).setdefault("r", {})["s"] = v
         return out
 
